@@ -1,15 +1,21 @@
 package chlog
 
 import (
+	"encoding/json"
 	"fmt"
 	"math/rand"
+	"os"
 	"runtime"
+	"sort"
+	"strings"
+	"sync"
 	"time"
 
 	"github.com/cube2222/octosql/execution"
 	"github.com/cube2222/octosql/octosql"
 	"github.com/cube2222/octosql/physical"
 
+	"github.com/cube2222/octosql/plugins/verifharness/core"
 	"github.com/cube2222/octosql/plugins/verifharness/nodeh"
 )
 
@@ -62,6 +68,9 @@ type Case struct {
 	Ref   func(in []Rel) nodeh.Multiset
 	Order *OrderSpec
 	Meta  Meta
+	// Inner, if set, is the upstream single-input stage of a pipeline as a case of its own (same
+	// input script), so that a judge can tell whether that stage already hands late records on.
+	Inner *Case
 }
 
 // Exec is the recording of one run.
@@ -172,4 +181,67 @@ func OutsAsEvents(outs []nodeh.Out) []nodeh.Event {
 		}
 	}
 	return evs
+}
+
+// OnlyID returns the case id a run is restricted to: --only, or the "id" stored in the --replay
+// file ("" = run everything).
+func OnlyID(only, replay string) string {
+	if only != "" {
+		return only
+	}
+	if replay == "" {
+		return ""
+	}
+	data, err := os.ReadFile(replay)
+	if err != nil {
+		return "unreadable-replay"
+	}
+	var body struct {
+		Case map[string]interface{} `json:"case"`
+	}
+	if err := json.Unmarshal(data, &body); err != nil {
+		return "unreadable-replay"
+	}
+	if id, ok := body.Case["id"].(string); ok {
+		return id
+	}
+	return "unreadable-replay"
+}
+
+// KindOfID extracts the kind name from a case id "<kind>#<index>".
+func KindOfID(id string) string {
+	for i := len(id) - 1; i >= 0; i-- {
+		if id[i] == '#' {
+			return id[:i]
+		}
+	}
+	return id
+}
+
+// ---- in-flight log ---------------------------------------------------------------------------------
+// A panic in a goroutine started by a join (its producers, and every node of a pipeline that runs
+// inside them) cannot be recovered and kills the process. Cases run on 16 workers, so the last-case
+// log must name every case that is in flight: Enter records the set through core's LogCase.
+
+var inflight = struct {
+	mu  sync.Mutex
+	ids map[string]struct{}
+}{ids: map[string]struct{}{}}
+
+func Enter(c *core.Ctx, id string) {
+	inflight.mu.Lock()
+	defer inflight.mu.Unlock()
+	inflight.ids[id] = struct{}{}
+	ids := make([]string, 0, len(inflight.ids))
+	for k := range inflight.ids {
+		ids = append(ids, k)
+	}
+	sort.Strings(ids)
+	c.LogCase("in-flight (re-run each with --only <id>): " + strings.Join(ids, " "))
+}
+
+func Leave(id string) {
+	inflight.mu.Lock()
+	delete(inflight.ids, id)
+	inflight.mu.Unlock()
 }
